@@ -86,11 +86,24 @@ def symbols(e) -> frozenset:
     return frozenset(out)
 
 
+_SYM_CACHE: dict = {}      # ast id -> (ast kept alive so that its id cannot be reused, symbols)
+
+
+def symbols_cached(e) -> frozenset:
+    k = e.get_id()
+    hit = _SYM_CACHE.get(k)
+    if hit is not None and hit[0].eq(e):
+        return hit[1]
+    sy = symbols(e)
+    _SYM_CACHE[k] = (e, sy)
+    return sy
+
+
 def coi_slice(axioms: List[Any], ob: Obligation):
     """Cone of influence: keep only hypotheses (and axioms) that share an uninterpreted symbol,
     transitively, with the goal.  Dropping hypotheses is sound for an `unsat` verdict."""
     want = set(symbols(ob.goal))
-    items = [(p, symbols(p)) for p in ob.pc] + [(a, symbols(a)) for a in axioms]
+    items = [(p, symbols_cached(p)) for p in ob.pc] + [(a, symbols_cached(a)) for a in axioms]
     keep = [False] * len(items)
     # symbols that occur nearly everywhere connect everything: do not propagate through them
     hub = {"root", "null_Node", "self"}
@@ -194,9 +207,13 @@ def discharge(axioms: List[Any], obs: List[Obligation], timeout_s: int = 30,
     if not obs:
         return
     nproc = nproc or int(os.environ.get("VERIF_PROCS", "0")) or min(16, os.cpu_count() or 4)
-    texts = {}
-    for ob in obs:
-        texts[ob.oid] = to_smt2(axioms, ob)
+    class _Texts(dict):
+        """full SMT-LIB text of an obligation, produced when a round actually needs it"""
+        def __missing__(self, oid):
+            t = to_smt2(axioms, byid[oid])
+            self[oid] = t
+            return t
+    texts = _Texts()
     byid = {ob.oid: ob for ob in obs}
     p = pool(nproc)
 
@@ -217,11 +234,7 @@ def discharge(axioms: List[Any], obs: List[Obligation], timeout_s: int = 30,
                 ob.info = (ob.info + " " + reason).strip()
 
     open_ = lambda: [ob for ob in obs if ob.status in ("pending", "unknown", "error")]
-    # round 0: string-free slice (sound: only drops hypotheses) for goals without string operators
     sliced = {}
-    for ob in obs:
-        if not ob.expect_fail and "str." not in ob.goal.sexpr() and "str." in texts[ob.oid]:
-            sliced[ob.oid] = to_smt2(axioms, ob, nostr=True)
     # round 0b: cone-of-influence slice (sound for the same reason)
     coi = {}
     for ob in obs:
@@ -245,7 +258,10 @@ def discharge(axioms: List[Any], obs: List[Obligation], timeout_s: int = 30,
             ob.time_s += dt
             if res == "unsat":
                 ob.status, ob.backend = "discharged", "z3/cone-of-influence-slice/no-solve-eqs"
-        sliced = {k: v for k, v in sliced.items() if byid[k].status != "discharged"}
+    # round 0c: string-free slice (sound: only drops hypotheses) for goals without string operators
+    for ob in obs:
+        if ob.status != "discharged" and not ob.expect_fail and "str." not in ob.goal.sexpr() and "str." in texts[ob.oid]:
+            sliced[ob.oid] = to_smt2(axioms, ob, nostr=True)
     if sliced:
         jobs = [(oid, t, 5000, False) for oid, t in sliced.items()]
         for oid, res, dt, model, reason in p.imap_unordered(_worker, jobs, chunksize=1):
@@ -261,6 +277,16 @@ def discharge(axioms: List[Any], obs: List[Obligation], timeout_s: int = 30,
         sel = [ob for ob in open_() if not ob.expect_fail and not ob.low_budget]
         if sel and (retry_mbqi or not mb):
             rnd(sel, tmo, mb, tag)
+    # rescue: the sliced queries again with the FULL budget - on a loaded machine the short first rounds can time out
+    # on queries that only the slice makes easy (verdicts must not depend on how busy the cores are)
+    for mode, tag in ((False, "z3/cone-of-influence-slice(full budget)"), ("noeq", "z3/cone-of-influence-slice/no-solve-eqs(full budget)")):
+        jobs = [(ob.oid, coi[ob.oid], int(timeout_s * 1000), mode) for ob in obs
+                if ob.status in ("unknown", "error") and not ob.expect_fail and not ob.low_budget and ob.oid in coi]
+        for oid, res, dt, model, reason in p.imap_unordered(_worker, jobs, chunksize=1):
+            ob = byid[oid]
+            ob.time_s += dt
+            if res == "unsat":
+                ob.status, ob.backend = "discharged", tag
     pending = [ob for ob in obs if ob.status in ("unknown", "error") and not ob.expect_fail and not ob.low_budget]
     if pending and use_cvc5 and os.path.exists("/usr/bin/cvc5"):
         jobs = [(ob.oid, texts[ob.oid], timeout_s) for ob in pending]
